@@ -6,6 +6,7 @@
    theorems need of it is `cm_ok`: the spans are in bounds and the match is not empty. *)
 From Coq Require Import List NArith ZArith Bool Permutation.
 From NV Require Import Bytes UcDefs UcSpec GenUcTables GenConf GenConsts DirDefs RenDefs ShapeDefs DirProps ShapeProps.
+From NV Require Import ReSyntax ReParse ReVM ReSem ReProps8 ReNullable.      (* the regex model of C10/C11, for the two theorems on the marks *)
 Import ListNotations.
 
 (* for every line, option setting and matcher whatsoever: the visual order is a permutation of
@@ -68,6 +69,27 @@ Print Assumptions C18_terminates_fix.
 Theorem C18_marks_not_nullable : forallb (fun m : Z * Z * Z * list N => negb (pat_nullable (snd m))) dirmarks = true.
 Proof. exact marks_not_nullable. Qed.
 Print Assumptions C18_marks_not_nullable.
+
+(* the same through the regex model (coq/ReNullable.v, C10/C11's group): the tree the model's parser builds of every
+   configured mark is not nullable by the tree-level analysis tnull, which IS proved sound against the set semantics
+   of the regex model (ReNullable.tnull_sound), and the string-level pat_nullable above agrees with it on every
+   configured mark.  pat_nullable is claimed on the generated table only: it is not sound for every pattern
+   (ReNullable.pat_nullable_refuted: "[[:alpha:]]*" -- its bracket scanner does not know [:class:] items) *)
+Theorem C18_marks_not_nullable_sound :
+  forallb (fun m : Z * Z * Z * list N =>
+             match mark_tree (snd m) with
+             | Some x => negb (tnull x) && Bool.eqb (pat_nullable (snd m)) (tnull x)
+             | None => false
+             end) dirmarks = true.
+Proof. exact dirmarks_not_nullable. Qed.
+Print Assumptions C18_marks_not_nullable_sound.
+
+(* hence every derivation of a configured mark in the regex model consumes at least one byte: the non-empty-match
+   half of the hypothesis cm_ok of C18_terminates / C18_runs_reversed, for the configured marks, from a sound analysis *)
+Theorem C18_marks_advance : forall m x flg line s s', In m dirmarks -> mark_tree (snd m) = Some x ->
+  ReSem.M st (atom_step flg line) mark_step (tr x) s s' -> Jm line s -> (fst s < fst s')%nat.
+Proof. exact dirmarks_advance. Qed.
+Print Assumptions C18_marks_advance.
 
 (* identity: if no mark of the line's context matches, the order is the logical one *)
 Theorem C18_identity : forall s xtd ctxfound raw,
